@@ -258,7 +258,7 @@ func run(e *core.Env) {
 			{selfBytes[0], selfBytes[1]},                             // own region
 			{selfBytes[0], selfBytes[1] & 0xf0},                      // own continent, region 0
 			{cp[0], cp[1], cp[2], cp[3]},                             // own country prefix base
-			{0xfd, 0x31}, {0xfd, 0x00, 0x12}, {0xfd, 0x0f}, // other continent, roaming, experiments
+			{0xfd, 0x31}, {0xfd, 0x00, 0x12}, {0xfd, 0x0f},           // other continent, roaming, experiments
 		}
 		e.Probe("config_shipped")
 	}
@@ -271,15 +271,15 @@ func run(e *core.Env) {
 		e.Probe("large_universe")
 	}
 	seen := map[netip.Addr]bool{w.self: true}
-	for len(w.dests) < nDst {
-		a := mkAddr(prefixes[tp.Intn(len(prefixes))], uint32(1+tp.Intn(4*nDst)))
+	for k := uint32(0); len(w.dests) < nDst; k++ {
+		a := mkAddr(prefixes[tp.Intn(len(prefixes))], uint32(1+tp.Intn(4*nDst))+k*7919)
 		if !seen[a] && !m.InternalPrefix.Contains(a) {
 			seen[a] = true
 			w.dests = append(w.dests, a)
 		}
 	}
-	for len(w.relays) < 5 {
-		a := mkAddr(prefixes[tp.Intn(len(prefixes))], uint32(0x10000+tp.Intn(64)))
+	for k := uint32(0); len(w.relays) < 5; k++ {
+		a := mkAddr(prefixes[tp.Intn(len(prefixes))], uint32(0x10000+tp.Intn(64))+k*7919)
 		if !seen[a] {
 			seen[a] = true
 			w.relays = append(w.relays, a)
@@ -311,11 +311,8 @@ func run(e *core.Env) {
 			} else {
 				dst := w.dests[tp.Intn(len(w.dests))]
 				nh := nextHops[tp.Intn(len(nextHops))]
-				for nh == dst {
-					nh = nextHops[tp.Intn(len(nextHops))]
-					if len(nextHops) == 1 {
-						break
-					}
+				for k := 0; nh == dst && k < len(nextHops); k++ {
+					nh = nextHops[k]
 				}
 				if nh == dst {
 					continue
